@@ -472,6 +472,28 @@ Proof.
   intros Ha Hg H. apply Qnot_le_lt. intros C. apply (isclose_iff g alpha Ha Hg) in C. congruence.
 Qed.
 
+(* the break test of the loop, for both variants: absolute part bt ab (atol before the fix, 0 at HEAD) *)
+Definition bt (ab : bool) : Q := if ab then atol else 0.
+Definition btol (ab : bool) (alpha : Q) : Q := bt ab + rtol * alpha.
+
+Lemma bt_nonneg ab : 0 <= bt ab.
+Proof. destruct ab; unfold bt, atol; lra. Qed.
+
+Lemma btol_nonneg ab alpha : 0 <= alpha -> 0 <= btol ab alpha.
+Proof. intros. pose proof (bt_nonneg ab). unfold btol, rtol. lra. Qed.
+
+Lemma btol_le_tol ab alpha : btol ab alpha <= tol alpha.
+Proof. unfold btol, tol. destruct ab; unfold bt, atol; lra. Qed.
+
+Lemma break_iff ab g alpha : 0 <= alpha -> g <= alpha ->
+  (break_test ab g alpha = true <-> alpha - g <= btol ab alpha).
+Proof.
+  intros Ha Hg. destruct ab; unfold break_test, btol, bt.
+  - apply isclose_iff; assumption.
+  - unfold isclose_rel. rewrite Qle_bool_iff.
+    rewrite (Qabs_neg (g - alpha)) by lra. rewrite (Qabs_pos alpha) by assumption. split; lra.
+Qed.
+
 Lemma abs_le_elim v V : Qabs v <= V -> - V <= v /\ v <= V.
 Proof. apply Qabs_Qle_condition. Qed.
 Lemma abs_le_intro v V : - V <= v /\ v <= V -> Qabs v <= V.
@@ -492,12 +514,12 @@ Proof.
 Qed.
 
 (* what the loop returns differs from the full fill by at most the mass the isclose break leaves out *)
-Lemma acc_close l : forall alpha V, 0 <= alpha -> 0 <= V -> Forall nonneg l -> abs_values_le V l ->
+Lemma acc_close ab l : forall alpha V, 0 <= alpha -> 0 <= V -> Forall nonneg l -> abs_values_le V l ->
   forall g g2 e, g == g2 -> g <= alpha ->
-  Qabs (accumulate alpha l g e - (e + fill alpha l g2)) <= tol alpha * V.
+  Qabs (accumulate_gen ab alpha l g e - (e + fill alpha l g2)) <= btol ab alpha * V.
 Proof.
-  induction l as [|[p v] r IH]; intros alpha V Ha HV Hn Hv g g2 e Hg Hga; cbn [fill accumulate].
-  - apply abs_le_intro. pose proof (Qmult_le_0_compat _ _ (tol_nonneg alpha Ha) HV). lra.
+  induction l as [|[p v] r IH]; intros alpha V Ha HV Hn Hv g g2 e Hg Hga; cbn [fill accumulate_gen].
+  - apply abs_le_intro. pose proof (Qmult_le_0_compat _ _ (btol_nonneg ab alpha Ha) HV). lra.
   - inversion Hn as [|? ? Hp Hr]; subst. unfold nonneg in Hp; simpl in Hp.
     inversion Hv as [|? ? Hvv Hvr]; subst. simpl in Hvv.
     destruct (take_facts (alpha - g2) p ltac:(lra) Hp) as (T0 & Tp & Tm & Tc).
@@ -506,10 +528,10 @@ Proof.
     { destruct (py_min2_spec (alpha - g) p) as [[? ->]|[? ->]]; destruct Tc as [[? ?]|[? ?]]; lra. }
     set (p' := py_min2 (alpha - g) p) in *.
     assert (Epv : p' * v == t * v) by (rewrite Ep; reflexivity).
-    destruct (isclose (g + p') alpha) eqn:Ec.
-    + apply (isclose_iff (g + p') alpha Ha ltac:(lra)) in Ec.
+    destruct (break_test ab (g + p') alpha) eqn:Ec.
+    + apply (break_iff ab (g + p') alpha Ha ltac:(lra)) in Ec.
       pose proof (fill_abs_bound r alpha (g2 + t) V HV Hr Hvr ltac:(lra)) as B. apply abs_le_elim in B.
-      pose proof (Qmult_le_0_compat (tol alpha - (alpha - (g2 + t))) V ltac:(lra) HV).
+      pose proof (Qmult_le_0_compat (btol ab alpha - (alpha - (g2 + t))) V ltac:(lra) HV).
       apply abs_le_intro. lra.
     + pose proof (IH alpha V Ha HV Hr Hvr (g + p') (g2 + t) (e + p' * v) ltac:(lra) ltac:(lra)) as IH'.
       apply abs_le_elim in IH'. apply abs_le_intro. lra.
@@ -524,27 +546,44 @@ Qed.
 Lemma alpha_nonzero alpha : 0 < alpha -> Qeq_bool alpha 0 = false.
 Proof. intros H. destruct (Qeq_bool alpha 0) eqn:E; [|reflexivity]. apply Qeq_bool_iff in E. lra. Qed.
 
-Theorem exact_or_close l alpha V :
+Theorem exact_or_close_gen ab l alpha V :
   is_dist l -> 0 < alpha -> alpha <= 1 -> isclose alpha 1 = false -> abs_values_le V l ->
-  exists r, get_expectation l alpha = Ok r /\ Qabs (r - cvar l alpha) <= (rtol + atol / alpha) * V.
+  exists r, get_expectation_gen ab l alpha = Ok r /\ Qabs (r - cvar l alpha) <= (rtol + bt ab / alpha) * V.
 Proof.
-  intros Hd Ha0 Ha1 Hc Hv. unfold get_expectation. rewrite Hc, (alpha_nonzero alpha Ha0).
+  intros Hd Ha0 Ha1 Hc Hv. unfold get_expectation_gen. rewrite Hc, (alpha_nonzero alpha Ha0).
   eexists. split; [reflexivity|]. unfold cvar. apply Qabs_div_bound; [assumption|].
   pose proof (dist_nonempty_V l V Hd Hv) as HV.
-  pose proof (acc_close (sort_by_value l) alpha V ltac:(lra) HV (is_dist_nonneg _ (is_dist_sort l Hd))
+  pose proof (acc_close ab (sort_by_value l) alpha V ltac:(lra) HV (is_dist_nonneg _ (is_dist_sort l Hd))
                 (abs_values_le_perm _ _ _ (Permutation_sym (sort_perm l)) Hv) 0 0 0 ltac:(lra) ltac:(lra)) as H.
-  assert (E : (rtol + atol / alpha) * V * alpha == tol alpha * V) by (unfold tol; field; lra).
+  assert (E : (rtol + bt ab / alpha) * V * alpha == btol ab alpha * V) by (unfold btol; field; lra).
   rewrite E. apply abs_le_elim in H. apply abs_le_intro. lra.
 Qed.
 
+(* HEAD: the loop breaks on the relative tolerance only; the result is within the relative resolution rtol of CVaR *)
+Theorem exact_or_close l alpha V :
+  is_dist l -> 0 < alpha -> alpha <= 1 -> isclose alpha 1 = false -> abs_values_le V l ->
+  exists r, get_expectation l alpha = Ok r /\ Qabs (r - cvar l alpha) <= rtol * V.
+Proof.
+  intros Hd Ha0 Ha1 Hc Hv. destruct (exact_or_close_gen false l alpha V Hd Ha0 Ha1 Hc Hv) as (r & E & B).
+  exists r. split; [exact E|].
+  assert (E0 : (rtol + bt false / alpha) * V == rtol * V) by (unfold bt; field; lra).
+  rewrite <- E0. exact B.
+Qed.
+
+(* before the fix: the absolute tolerance of the break adds atol / alpha *)
+Theorem exact_or_close_legacy l alpha V :
+  is_dist l -> 0 < alpha -> alpha <= 1 -> isclose alpha 1 = false -> abs_values_le V l ->
+  exists r, get_expectation_legacy l alpha = Ok r /\ Qabs (r - cvar l alpha) <= (rtol + atol / alpha) * V.
+Proof. exact (exact_or_close_gen true l alpha V). Qed.
+
 (* no early break unless the gathered mass is exactly alpha: then the loop is the fill *)
-Lemma acc_exact l : forall alpha, 0 <= alpha -> Forall nonneg l ->
+Lemma acc_exact ab l : forall alpha, 0 <= alpha -> Forall nonneg l ->
   forall g g2 e, g == g2 -> g <= alpha ->
   (forall k, (1 <= k)%nat ->
-             g + total_mass (firstn k l) < alpha -> tol alpha < alpha - (g + total_mass (firstn k l))) ->
-  accumulate alpha l g e == e + fill alpha l g2.
+             g + total_mass (firstn k l) < alpha -> btol ab alpha < alpha - (g + total_mass (firstn k l))) ->
+  accumulate_gen ab alpha l g e == e + fill alpha l g2.
 Proof.
-  induction l as [|[p v] r IH]; intros alpha Ha Hn g g2 e Hg Hga HK; simpl; [lra|].
+  induction l as [|[p v] r IH]; intros alpha Ha Hn g g2 e Hg Hga HK; cbn [fill accumulate_gen]; [lra|].
   inversion Hn as [|? ? Hp Hr]; subst. unfold nonneg in Hp; simpl in Hp.
   destruct (take_facts (alpha - g2) p ltac:(lra) Hp) as (T0 & Tp & Tm & Tc).
   set (t := Qmax 0 (Qmin (alpha - g2) p)) in *.
@@ -554,8 +593,8 @@ Proof.
     set (p' := py_min2 (alpha - g) p) in *.
     assert (Epv : p' * v == t * v) by (rewrite Ep; reflexivity).
     assert (Epp : p' == p) by (rewrite Ep'; reflexivity).
-    destruct (isclose (g + p') alpha) eqn:Ec.
-    + apply (isclose_iff (g + p') alpha Ha ltac:(lra)) in Ec.
+    destruct (break_test ab (g + p') alpha) eqn:Ec.
+    + apply (break_iff ab (g + p') alpha Ha ltac:(lra)) in Ec.
       specialize (HK 1%nat ltac:(lia)). simpl in HK. lra.
     + rewrite (IH alpha Ha Hr (g + p') (g2 + t) (e + p' * v)); [lra|lra|lra|].
       intros k _ Hk. specialize (HK (S k) ltac:(lia)). simpl in HK. lra.
@@ -564,32 +603,49 @@ Proof.
     set (p' := py_min2 (alpha - g) p) in *.
     assert (Epv : p' * v == t * v) by (rewrite Ep; reflexivity).
     assert (Epp : p' == alpha - g) by (rewrite Ep'; reflexivity).
-    assert (Ec : isclose (g + p') alpha = true).
-    { apply isclose_iff; [assumption|lra|]. pose proof (tol_nonneg alpha Ha). lra. }
+    assert (Ec : break_test ab (g + p') alpha = true).
+    { apply break_iff; [assumption|lra|]. pose proof (btol_nonneg ab alpha Ha). lra. }
     rewrite Ec. rewrite (fill_zero r alpha (g2 + t)) by lra. lra.
 Qed.
 
 (* The loop tests isclose(gathered, alpha) only after it has taken from a state: the empty prefix (k = 0) is not a
    possible break point, so the premise speaks about the non-empty prefixes only. *)
-Theorem exact_when_no_break l alpha :
+Theorem exact_when_no_break_gen ab l alpha :
   is_dist l -> 0 < alpha -> alpha <= 1 -> isclose alpha 1 = false ->
   (forall k, (1 <= k)%nat ->
-             let G := total_mass (firstn k (sort_by_value l)) in G < alpha -> atol + rtol * alpha < alpha - G) ->
-  exists r, get_expectation l alpha = Ok r /\ r == cvar l alpha.
+             let G := total_mass (firstn k (sort_by_value l)) in G < alpha -> bt ab + rtol * alpha < alpha - G) ->
+  exists r, get_expectation_gen ab l alpha = Ok r /\ r == cvar l alpha.
 Proof.
-  intros Hd Ha0 Ha1 Hc HK. unfold get_expectation. rewrite Hc, (alpha_nonzero alpha Ha0).
+  intros Hd Ha0 Ha1 Hc HK. unfold get_expectation_gen. rewrite Hc, (alpha_nonzero alpha Ha0).
   eexists. split; [reflexivity|]. unfold cvar.
-  rewrite (acc_exact (sort_by_value l) alpha ltac:(lra) (is_dist_nonneg _ (is_dist_sort l Hd)) 0 0 0);
+  rewrite (acc_exact ab (sort_by_value l) alpha ltac:(lra) (is_dist_nonneg _ (is_dist_sort l Hd)) 0 0 0);
     [|lra|lra|].
   - assert (E : 0 + fill alpha (sort_by_value l) 0 == fill alpha (sort_by_value l) 0) by lra.
     rewrite E. reflexivity.
-  - intros k Hk1 Hk. specialize (HK k Hk1). simpl in HK. unfold tol. lra.
+  - intros k Hk1 Hk. specialize (HK k Hk1). simpl in HK. unfold btol. lra.
 Qed.
+
+Theorem exact_when_no_break l alpha :
+  is_dist l -> 0 < alpha -> alpha <= 1 -> isclose alpha 1 = false ->
+  (forall k, (1 <= k)%nat ->
+             let G := total_mass (firstn k (sort_by_value l)) in G < alpha -> rtol * alpha < alpha - G) ->
+  exists r, get_expectation l alpha = Ok r /\ r == cvar l alpha.
+Proof.
+  intros Hd Ha0 Ha1 Hc HK. apply (exact_when_no_break_gen false l alpha Hd Ha0 Ha1 Hc).
+  intros k Hk1 G HG. specialize (HK k Hk1 HG). unfold bt. fold G in HK. lra.
+Qed.
+
+Theorem exact_when_no_break_legacy l alpha :
+  is_dist l -> 0 < alpha -> alpha <= 1 -> isclose alpha 1 = false ->
+  (forall k, (1 <= k)%nat ->
+             let G := total_mass (firstn k (sort_by_value l)) in G < alpha -> atol + rtol * alpha < alpha - G) ->
+  exists r, get_expectation_legacy l alpha = Ok r /\ r == cvar l alpha.
+Proof. exact (exact_when_no_break_gen true l alpha). Qed.
 
 (* the weaker earlier form: premise for all prefixes including the empty one *)
 Corollary exact_when_no_break_all_prefixes l alpha :
   is_dist l -> 0 < alpha -> alpha <= 1 -> isclose alpha 1 = false ->
-  (forall k, let G := total_mass (firstn k (sort_by_value l)) in G < alpha -> atol + rtol * alpha < alpha - G) ->
+  (forall k, let G := total_mass (firstn k (sort_by_value l)) in G < alpha -> rtol * alpha < alpha - G) ->
   exists r, get_expectation l alpha = Ok r /\ r == cvar l alpha.
 Proof. intros Hd Ha0 Ha1 Hc HK. apply exact_when_no_break; try assumption. intros k _. apply HK. Qed.
 
@@ -607,7 +663,7 @@ Proof.
   - lra.
   - vm_compute. reflexivity.
   - intros k Hk1. change (sort_by_value example_dist) with [(1 # 4, 1); (1 # 2, 2); (1 # 4, 3)].
-    destruct k as [|[|[|k]]]; [lia| | |]; simpl; unfold atol, rtol; intros H; try lra.
+    destruct k as [|[|[|k]]]; [lia| | |]; simpl; unfold rtol; intros H; try lra.
     destruct k; simpl in H; lra.
 Qed.
 
@@ -677,9 +733,9 @@ Proof.
     vm_compute in E. injection E as <-. vm_compute. reflexivity.
 Qed.
 
-(* below atol the proved resolution bound (rtol + atol / alpha) * V exceeds the value scale V itself: there the
-   bound of [exact_or_close] says nothing, which is why the exact clause above matters *)
-Lemma resolution_bound_vacuous_below_atol alpha V :
+(* Concerns only the legacy variant: below atol its resolution bound (rtol + atol / alpha) * V exceeds the value scale
+   V itself, so [exact_or_close_legacy] says nothing there (HEAD's bound rtol * V has no such regime). *)
+Lemma legacy_bound_vacuous_below_atol alpha V :
   0 < alpha -> alpha <= atol -> 0 <= V -> V <= (rtol + atol / alpha) * V.
 Proof.
   intros H0 Ha HV. assert (H1 : 1 <= atol / alpha) by (apply Qle_shift_div_l; lra).
@@ -713,22 +769,47 @@ Proof.
     + destruct (IH k) as [E|E]; [left|right]; lra.
 Qed.
 
+Theorem alpha_one_bitstring_gen ab l V : is_dist l -> abs_values_le V l ->
+  exists r, get_expectation_gen ab l 1 = Ok r /\ Qabs (r - expectation l) <= (rtol + bt ab) * V /\
+            (Forall (fun e => rtol + bt ab < fst e) l -> r == expectation l).
+Proof.
+  intros Hd Hv. pose proof (dist_nonempty_V l V Hd Hv) as HV. destruct Hd as [Hn Ht].
+  unfold get_expectation_gen. change (isclose 1 1) with true. change (Qeq_bool 1 0) with false. cbv iota.
+  eexists. split; [reflexivity|].
+  assert (EF : fill 1 l 0 == expectation l) by (apply fill_all; [assumption|lra]).
+  split.
+  - pose proof (acc_close ab l 1 V ltac:(lra) HV Hn Hv 0 0 0 ltac:(lra) ltac:(lra)) as H.
+    apply abs_le_elim in H. apply abs_le_intro. pose proof (Qdiv_1 (accumulate_gen ab 1 l 0 0)).
+    unfold btol in H. lra.
+  - intros Hbig. rewrite Qdiv_1.
+    rewrite (acc_exact ab l 1 ltac:(lra) Hn 0 0 0); [lra|lra|lra|].
+    pose proof (bt_nonneg ab).
+    intros k _ Hk. destruct (firstn_gap (rtol + bt ab) l ltac:(unfold rtol; lra) Hbig k) as [E|E];
+      unfold btol; lra.
+Qed.
+
+(* HEAD, sharp: relative resolution only *)
+Theorem alpha_one_bitstring_sharp l V : is_dist l -> abs_values_le V l ->
+  exists r, get_expectation l 1 = Ok r /\ Qabs (r - expectation l) <= rtol * V /\
+            (Forall (fun e => rtol < fst e) l -> r == expectation l).
+Proof.
+  intros Hd Hv. destruct (alpha_one_bitstring_gen false l V Hd Hv) as (r & E & B & X).
+  exists r. split; [exact E|]. unfold bt in *. split.
+  - apply abs_le_elim in B. apply abs_le_intro. lra.
+  - intros H. apply X. eapply Forall_impl; [|exact H]. simpl. intros a Ha. lra.
+Qed.
+
+(* the earlier, weaker form still holds at HEAD *)
 Theorem alpha_one_bitstring l V : is_dist l -> abs_values_le V l ->
   exists r, get_expectation l 1 = Ok r /\ Qabs (r - expectation l) <= (rtol + atol) * V /\
             (Forall (fun e => rtol + atol < fst e) l -> r == expectation l).
 Proof.
-  intros Hd Hv. pose proof (dist_nonempty_V l V Hd Hv) as HV. destruct Hd as [Hn Ht].
-  unfold get_expectation. change (isclose 1 1) with true. change (Qeq_bool 1 0) with false. cbv iota.
-  eexists. split; [reflexivity|].
-  assert (EF : fill 1 l 0 == expectation l) by (apply fill_all; [assumption|lra]).
-  split.
-  - pose proof (acc_close l 1 V ltac:(lra) HV Hn Hv 0 0 0 ltac:(lra) ltac:(lra)) as H.
-    apply abs_le_elim in H. apply abs_le_intro. pose proof (Qdiv_1 (accumulate 1 l 0 0)).
-    unfold tol in H. lra.
-  - intros Hbig. rewrite Qdiv_1.
-    rewrite (acc_exact l 1 ltac:(lra) Hn 0 0 0); [lra|lra|lra|].
-    intros k _ Hk. destruct (firstn_gap (rtol + atol) l ltac:(unfold rtol, atol; lra) Hbig k) as [E|E];
-      unfold tol; lra.
+  intros Hd Hv. pose proof (dist_nonempty_V l V Hd Hv) as HV.
+  destruct (alpha_one_bitstring_sharp l V Hd Hv) as (r & E & B & X).
+  exists r. split; [exact E|]. split.
+  - apply abs_le_elim in B. apply abs_le_intro.
+    pose proof (Qmult_le_0_compat atol V ltac:(unfold atol; lra) HV). lra.
+  - intros H. apply X. eapply Forall_impl; [|exact H]. simpl. intros a Ha. unfold atol in Ha. lra.
 Qed.
 
 (* ------------------------------------------------------------------------------------------------ 7. alpha isclose 1 *)
@@ -770,21 +851,21 @@ Proof. induction l; simpl; lra. Qed.
 
 (* the loop's result as a weighted sum: admissible weights whose mass is at most alpha and misses it by at most the
    tolerance (unless the list runs out first) *)
-Lemma acc_weights l : forall alpha, 0 <= alpha -> Forall nonneg l -> forall g e, g <= alpha ->
-  exists ws, Forall2 adm ws l /\ accumulate alpha l g e == e + wsum ws l /\ g + sumQ ws <= alpha /\
-             Qmin alpha (g + total_mass l) - tol alpha <= g + sumQ ws.
+Lemma acc_weights ab l : forall alpha, 0 <= alpha -> Forall nonneg l -> forall g e, g <= alpha ->
+  exists ws, Forall2 adm ws l /\ accumulate_gen ab alpha l g e == e + wsum ws l /\ g + sumQ ws <= alpha /\
+             Qmin alpha (g + total_mass l) - btol ab alpha <= g + sumQ ws.
 Proof.
-  induction l as [|[p v] r IH]; intros alpha Ha Hn g e Hg; cbn [accumulate].
-  - exists []. split; [constructor|]. simpl. pose proof (tol_nonneg alpha Ha). pose proof (Q.le_min_r alpha (g + 0)).
+  induction l as [|[p v] r IH]; intros alpha Ha Hn g e Hg; cbn [accumulate_gen].
+  - exists []. split; [constructor|]. simpl. pose proof (btol_nonneg ab alpha Ha). pose proof (Q.le_min_r alpha (g + 0)).
     repeat split; lra.
   - inversion Hn as [|? ? Hp Hr]; subst. unfold nonneg in Hp; simpl in Hp.
-    pose proof (total_mass_nonneg r Hr) as Htr. pose proof (tol_nonneg alpha Ha) as Htol.
+    pose proof (total_mass_nonneg r Hr) as Htr. pose proof (btol_nonneg ab alpha Ha) as Htol.
     assert (P0 : 0 <= py_min2 (alpha - g) p /\ py_min2 (alpha - g) p <= p /\ py_min2 (alpha - g) p <= alpha - g /\
                  (py_min2 (alpha - g) p == p \/ py_min2 (alpha - g) p == alpha - g)).
     { destruct (py_min2_spec (alpha - g) p) as [[? ->]|[? ->]]; repeat split; lra. }
     set (p' := py_min2 (alpha - g) p) in *. destruct P0 as (P0 & Pp & Pm & Pc).
-    destruct (isclose (g + p') alpha) eqn:Ec.
-    + apply (isclose_iff (g + p') alpha Ha ltac:(lra)) in Ec.
+    destruct (break_test ab (g + p') alpha) eqn:Ec.
+    + apply (break_iff ab (g + p') alpha Ha ltac:(lra)) in Ec.
       exists (p' :: map (fun _ => 0) r). split; [constructor; [split; simpl; assumption|apply zeros_adm; assumption]|].
       cbn [wsum sumQ fold_right snd total_mass]. rewrite zeros_wsum.
       pose proof (zeros_sum r) as Z. unfold sumQ in Z. rewrite Z.
@@ -826,14 +907,14 @@ Proof.
   - apply IH. exact Hr.
 Qed.
 
-Theorem near_one_bitstring l alpha lo hi V :
+Theorem near_one_bitstring_gen ab l alpha lo hi V :
   is_dist l -> 0 < alpha -> alpha <= 1 -> isclose alpha 1 = true -> values_within lo hi l -> abs_values_le V l ->
-  exists r, get_expectation l alpha = Ok r /\
+  exists r, get_expectation_gen ab l alpha = Ok r /\
             Qabs (r - cvar l alpha) <= (rtol + atol) * ((hi - lo) + V) / alpha.
 Proof.
   intros Hd H0 H1 Hc Hv Ha. pose proof (dist_nonempty_V l V Hd Ha) as HV.
   pose proof (near_one_gap alpha H0 H1 Hc) as Hgap.
-  unfold get_expectation. rewrite Hc, (alpha_nonzero alpha H0). eexists. split; [reflexivity|].
+  unfold get_expectation_gen. rewrite Hc, (alpha_nonzero alpha H0). eexists. split; [reflexivity|].
   unfold cvar. apply Qabs_div_bound; [assumption|].
   assert (EB : (rtol + atol) * (hi - lo + V) / alpha * alpha == (rtol + atol) * (hi - lo + V)) by (field; lra).
   rewrite EB. clear EB.
@@ -844,12 +925,13 @@ Proof.
   assert (Hlh : lo' <= hi').
   { destruct Hd as [_ Ht]. destruct l as [|e r]; simpl in Ht; [lra|]. inversion Hv' as [|? ? [? ?] _]; subst. lra. }
   destruct Hd as [Hn Ht].
-  destruct (acc_weights l alpha ltac:(lra) Hn 0 0 ltac:(lra)) as (ws' & A' & EA & G1 & G2).
+  destruct (acc_weights ab l alpha ltac:(lra) Hn 0 0 ltac:(lra)) as (ws' & A' & EA & G1 & G2).
   pose proof (adm_sum_nonneg _ _ A') as G0.
+  pose proof (btol_le_tol ab alpha) as Hbt.
   assert (G3 : alpha - tol alpha <= sumQ ws').
   { destruct (Q.min_spec alpha (0 + total_mass l)) as [[? ?]|[? ?]]; lra. }
   assert (Htol : tol alpha <= rtol + atol) by (unfold tol, rtol, atol; lra).
-  set (Acc := accumulate alpha l 0 0) in *. set (g := sumQ ws') in *.
+  set (Acc := accumulate_gen ab alpha l 0 0) in *. set (g := sumQ ws') in *.
   (* the sorted fill and its weights *)
   destruct (sorted_fill_weights l alpha Hn ltac:(lra) ltac:(lra)) as (ws & A & S & W).
   pose proof (rest_upper hi' ws (sort_by_value l) A
@@ -878,6 +960,18 @@ Proof.
   pose proof (Qmult_le_0_compat T R ltac:(lra) ltac:(lra)).
   apply abs_le_intro. unfold R', a, d in *. split; lra.
 Qed.
+
+Theorem near_one_bitstring l alpha lo hi V :
+  is_dist l -> 0 < alpha -> alpha <= 1 -> isclose alpha 1 = true -> values_within lo hi l -> abs_values_le V l ->
+  exists r, get_expectation l alpha = Ok r /\
+            Qabs (r - cvar l alpha) <= (rtol + atol) * ((hi - lo) + V) / alpha.
+Proof. exact (near_one_bitstring_gen false l alpha lo hi V). Qed.
+
+Theorem near_one_bitstring_legacy l alpha lo hi V :
+  is_dist l -> 0 < alpha -> alpha <= 1 -> isclose alpha 1 = true -> values_within lo hi l -> abs_values_le V l ->
+  exists r, get_expectation_legacy l alpha = Ok r /\
+            Qabs (r - cvar l alpha) <= (rtol + atol) * ((hi - lo) + V) / alpha.
+Proof. exact (near_one_bitstring_gen true l alpha lo hi V). Qed.
 
 (* ------------------------------------------------------------------------------------------------ 8. the two paths *)
 Definition entries (op : list term) (d : dist) : list entry := map (fun sp => (snd sp, eval_diag op (fst sp))) d.
@@ -969,7 +1063,7 @@ Theorem paths_equal n d op alpha : states_fit n d -> isclose alpha 1 = false ->
 Proof.
   intros H Hc. rewrite (bitstring_path n d op alpha H). unfold expectation_with_operator. fold (entries op d).
   destruct (negb (alpha_ok alpha)); [reflexivity|]. rewrite Hc.
-  unfold get_expectation. rewrite Hc, sort_idempotent. reflexivity.
+  unfold get_expectation, get_expectation_gen. rewrite Hc, sort_idempotent. reflexivity.
 Qed.
 
 Theorem paths_agree n d op alpha lo hi V :
@@ -978,7 +1072,7 @@ Theorem paths_agree n d op alpha lo hi V :
   exists r1 r2,
     expectation_with_operator d op alpha = Ok r1 /\ expectation_with_bitstring n d n op alpha = Ok r2 /\
     (isclose alpha 1 = false ->
-       r1 = r2 /\ Qabs (r1 - cvar (entries op d) alpha) <= (rtol + atol / alpha) * V) /\
+       r1 = r2 /\ Qabs (r1 - cvar (entries op d) alpha) <= rtol * V) /\
     (isclose alpha 1 = true ->
        Qabs (r1 - cvar (entries op d) alpha) <= (1 - alpha) * (hi - lo) /\
        Qabs (r2 - cvar (entries op d) alpha) <= (rtol + atol) * ((hi - lo) + V) / alpha /\
@@ -1061,7 +1155,7 @@ Qed.
 Lemma impl_mono l a1 a2 V :
   is_dist l -> 0 < a1 -> a1 <= a2 -> a2 <= 1 -> isclose a1 1 = false -> isclose a2 1 = false -> abs_values_le V l ->
   exists r1 r2, get_expectation l a1 = Ok r1 /\ get_expectation l a2 = Ok r2 /\
-                r1 <= r2 + (rtol + atol / a1) * V + (rtol + atol / a2) * V.
+                r1 <= r2 + rtol * V + rtol * V.
 Proof.
   intros D H1 H12 H2 C1 C2 HV.
   assert (H2' : 0 < a2) by lra. assert (H1' : a1 <= 1) by lra.
@@ -1075,7 +1169,7 @@ Qed.
 Lemma impl_range l alpha lo hi V :
   is_dist l -> 0 < alpha -> alpha <= 1 -> isclose alpha 1 = false -> values_within lo hi l -> abs_values_le V l ->
   exists r, get_expectation l alpha = Ok r /\
-            lo - (rtol + atol / alpha) * V <= r /\ r <= expectation l + (rtol + atol / alpha) * V.
+            lo - rtol * V <= r /\ r <= expectation l + rtol * V.
 Proof.
   intros D H0 H1 C W HV.
   destruct (exact_or_close l alpha V D H0 H1 C HV) as [r [E B]].
@@ -1083,3 +1177,125 @@ Proof.
   destruct (cvar_bounds l alpha lo hi D H0 H1 W) as [L U].
   apply Qabs_Qle_condition in B. lra.
 Qed.
+
+(* ------------------------------------------------------------------------------------------------ the absolute break tolerance refuted *)
+(* 100000 shots, one of them on the value -1, alpha = 1.001e-5: before the fix the loop stopped after the first state
+   (missing mass 1e-8 <= atol + rtol * alpha) and returned -1000/1001 instead of CVaR = -999/1001, off by 1/1001, a
+   hundred times the relative resolution; HEAD returns CVaR exactly. *)
+Definition example_shots : list entry := [(1 # 100000, - (1)); (99999 # 100000, 1)].
+Definition example_shots_alpha : Q := 1001 # 100000000.
+
+Example atol_break_refuted :
+  is_dist example_shots /\ abs_values_le 1 example_shots /\ isclose example_shots_alpha 1 = false /\
+  exists r_legacy r_head,
+    get_expectation_legacy example_shots example_shots_alpha = Ok r_legacy /\
+    get_expectation example_shots example_shots_alpha = Ok r_head /\
+    cvar example_shots example_shots_alpha == - (999 # 1001) /\
+    r_head == cvar example_shots example_shots_alpha /\
+    r_legacy == - (1000 # 1001) /\
+    Qabs (r_legacy - cvar example_shots example_shots_alpha) == 1 # 1001 /\
+    rtol * 1 < Qabs (r_legacy - cvar example_shots example_shots_alpha).
+Proof.
+  split; [split; [repeat constructor; unfold Qle; simpl; lia|vm_compute; reflexivity]|].
+  split; [repeat constructor; vm_compute; discriminate|].
+  split; [vm_compute; reflexivity|].
+  eexists. eexists. split; [vm_compute; reflexivity|]. split; [vm_compute; reflexivity|].
+  repeat split; vm_compute; reflexivity.
+Qed.
+
+(* ------------------------------------------------------------------------------------------------ all alpha in (0, 1] *)
+(* the resolution of each path as a function of alpha: relative resolution rtol away from 1, the near-1 constants in
+   the band isclose alpha 1 *)
+Definition B_op (alpha V R : Q) : Q := if isclose alpha 1 then (1 - alpha) * R else rtol * V.
+Definition B_bs (alpha V R : Q) : Q := if isclose alpha 1 then (rtol + atol) * (R + V) / alpha else rtol * V.
+
+Lemma cvar_sort l alpha : cvar (sort_by_value l) alpha = cvar l alpha.
+Proof. unfold cvar. rewrite sort_idempotent. reflexivity. Qed.
+
+Theorem get_expectation_close l alpha lo hi V :
+  is_dist l -> 0 < alpha -> alpha <= 1 -> values_within lo hi l -> abs_values_le V l ->
+  exists r, get_expectation l alpha = Ok r /\ Qabs (r - cvar l alpha) <= B_bs alpha V (hi - lo).
+Proof.
+  intros D H0 H1 W HV. unfold B_bs. destruct (isclose alpha 1) eqn:C.
+  - apply near_one_bitstring; assumption.
+  - apply exact_or_close; assumption.
+Qed.
+
+Theorem operator_close d op alpha lo hi V :
+  is_dist (entries op d) -> 0 < alpha -> alpha <= 1 ->
+  values_within lo hi (entries op d) -> abs_values_le V (entries op d) ->
+  exists r, expectation_with_operator d op alpha = Ok r /\
+            Qabs (r - cvar (entries op d) alpha) <= B_op alpha V (hi - lo).
+Proof.
+  intros D H0 H1 W HV. unfold B_op. destruct (isclose alpha 1) eqn:C.
+  - destruct (near_one_operator_path d op alpha lo hi D H0 H1 C W) as (r & E & B & _). exists r. split; assumption.
+  - unfold expectation_with_operator. fold (entries op d). rewrite (alpha_ok_true alpha H0 H1), C. cbv iota. simpl negb. cbv iota.
+    rewrite <- (cvar_sort (entries op d) alpha). apply exact_or_close; try assumption.
+    + apply is_dist_sort. exact D.
+    + eapply abs_values_le_perm; [symmetry; apply sort_perm|exact HV].
+Qed.
+
+Theorem impl_mono_all l a1 a2 lo hi V :
+  is_dist l -> 0 < a1 -> a1 <= a2 -> a2 <= 1 -> values_within lo hi l -> abs_values_le V l ->
+  exists r1 r2, get_expectation l a1 = Ok r1 /\ get_expectation l a2 = Ok r2 /\
+                r1 <= r2 + B_bs a1 V (hi - lo) + B_bs a2 V (hi - lo).
+Proof.
+  intros D H1 H12 H2 W HV.
+  destruct (get_expectation_close l a1 lo hi V D H1 ltac:(lra) W HV) as (r1 & E1 & B1).
+  destruct (get_expectation_close l a2 lo hi V D ltac:(lra) H2 W HV) as (r2 & E2 & B2).
+  exists r1, r2. split; [exact E1|]. split; [exact E2|].
+  pose proof (cvar_mono l a1 a2 D H1 H12 H2) as M.
+  apply abs_le_elim in B1. apply abs_le_elim in B2. lra.
+Qed.
+
+Theorem impl_range_all l alpha lo hi V :
+  is_dist l -> 0 < alpha -> alpha <= 1 -> values_within lo hi l -> abs_values_le V l ->
+  exists r, get_expectation l alpha = Ok r /\
+            lo - B_bs alpha V (hi - lo) <= r /\ r <= expectation l + B_bs alpha V (hi - lo).
+Proof.
+  intros D H0 H1 W HV.
+  destruct (get_expectation_close l alpha lo hi V D H0 H1 W HV) as (r & E & B).
+  exists r. split; [exact E|].
+  destruct (cvar_bounds l alpha lo hi D H0 H1 W) as [L U].
+  apply abs_le_elim in B. lra.
+Qed.
+
+Theorem operator_mono_all d op a1 a2 lo hi V :
+  is_dist (entries op d) -> 0 < a1 -> a1 <= a2 -> a2 <= 1 ->
+  values_within lo hi (entries op d) -> abs_values_le V (entries op d) ->
+  exists r1 r2, expectation_with_operator d op a1 = Ok r1 /\ expectation_with_operator d op a2 = Ok r2 /\
+                r1 <= r2 + B_op a1 V (hi - lo) + B_op a2 V (hi - lo).
+Proof.
+  intros D H1 H12 H2 W HV.
+  destruct (operator_close d op a1 lo hi V D H1 ltac:(lra) W HV) as (r1 & E1 & B1).
+  destruct (operator_close d op a2 lo hi V D ltac:(lra) H2 W HV) as (r2 & E2 & B2).
+  exists r1, r2. split; [exact E1|]. split; [exact E2|].
+  pose proof (cvar_mono (entries op d) a1 a2 D H1 H12 H2) as M.
+  apply abs_le_elim in B1. apply abs_le_elim in B2. lra.
+Qed.
+
+Theorem operator_range_all d op alpha lo hi V :
+  is_dist (entries op d) -> 0 < alpha -> alpha <= 1 ->
+  values_within lo hi (entries op d) -> abs_values_le V (entries op d) ->
+  exists r, expectation_with_operator d op alpha = Ok r /\
+            lo - B_op alpha V (hi - lo) <= r /\ r <= expectation (entries op d) + B_op alpha V (hi - lo).
+Proof.
+  intros D H0 H1 W HV.
+  destruct (operator_close d op alpha lo hi V D H0 H1 W HV) as (r & E & B).
+  exists r. split; [exact E|].
+  destruct (cvar_bounds (entries op d) alpha lo hi D H0 H1 W) as [L U].
+  apply abs_le_elim in B. lra.
+Qed.
+
+(* the band isclose alpha 1 is |alpha - 1| <= rtol + atol = 1.001e-5, and in it both constants are small *)
+Lemma near_one_band alpha : 0 < alpha -> alpha <= 1 -> (isclose alpha 1 = true <-> 1 - alpha <= 1001 # 100000000).
+Proof.
+  intros H0 H1. rewrite (isclose_iff alpha 1) by lra. unfold tol, atol, rtol. split; lra.
+Qed.
+
+(* ------------------------------------------------------------------------------------------------ isclose with an explicit atol *)
+Lemma isclose_tol_atol a b : isclose_tol atol a b = isclose a b.
+Proof. reflexivity. Qed.
+
+Lemma isclose_tol_0 a b : isclose_tol 0 a b = isclose_rel a b.
+Proof. unfold isclose_tol, isclose_rel. apply Qleb_comp; [reflexivity | ring]. Qed.
